@@ -601,6 +601,11 @@ class VectorContainer:
 
         def resolve_indexes(match: re.match) -> str:
             """Convert the contents of a possibly backticked index expression to integer indexes."""
+            # Leave purely positional indexes and slices (no backticked period
+            # label) exactly as written: they keep their ordinary Python meaning
+            if '`' not in match.group(0):
+                return match.group(0)
+
             # Treat the contents of `match` as a slice, with up to three
             # components: start, stop, step
             slice_ = match.group(1).split(':')
